@@ -111,3 +111,11 @@ Print Assumptions C11_invalid_key_every_operation.
 Theorem C11_key_alphabet_is_the_documented_one : forall k, valid_key cfg k = doc_valid_key k.
 Proof. apply valid_key_is_documented. vm_compute. reflexivity. Qed.
 Print Assumptions C11_key_alphabet_is_the_documented_one.
+(* Qualifiers::search is slice::binary_search_by with the key comparator; the model scans linearly. theories/BinSearch.v models std's loop
+   (left/right, mid = left + (right-left)/2) and proves it returns what the linear scan returns on every list that is monotone for the probe;
+   every reachable qualifier list is (QInv: strictly sorted canonical keys), so the model's search is the crate's, for lists of any length *)
+From PM Require Import BinSearch.
+Theorem C11_search_is_binary_search : forall q m k, QInv cfg q -> check_key cfg k = Ok m ->
+  search cfg q m = binary_search_by (probe cfg k) dkv q.
+Proof. intros q m k HQ Hm. apply search_is_binary_search; [sc|sc|exact HQ|exact Hm]. Qed.
+Print Assumptions C11_search_is_binary_search.
